@@ -79,10 +79,22 @@ def allzeros(msg):
     return F.field(bits, 33, 88) == 0
 
 
+# (status, msb, lsb) triples for which the body of wrongstatus() is verified against this contract
+# (contracts/common.py wrongstatus_body): every triple the repository passes today plus boundary triples.  A call
+# with any other triple does not establish the precondition below, which makes the CALLER undecided (bounded
+# stand-in) - never a violation.
+WS_TRIPLES = [(1, 2, 13), (14, 15, 26), (27, 28, 39), (48, 49, 51), (54, 55, 56), (5, 6, 23), (35, 36, 46),
+              (47, 48, 49), (50, 51, 56), (1, 2, 3), (4, 5, 6), (7, 8, 9), (10, 11, 12), (13, 14, 15), (16, 17, 26),
+              (27, 28, 38), (39, 40, 51), (1, 3, 11), (12, 13, 23), (24, 25, 34), (35, 36, 45), (46, 47, 56),
+              (1, 3, 12), (13, 14, 23), (24, 25, 33), (34, 35, 46), (47, 49, 56), (1, 2, 12),
+              (1, 1, 1), (56, 56, 56), (1, 1, 56), (56, 1, 56), (28, 1, 27), (1, 2, 56)]
+
+
 def wrongstatus(data, sb, msb, lsb):
     """status bit clear while the field bits msb..lsb are not all zero"""
     require(1 <= sb and sb <= len(data) and 1 <= msb and msb <= lsb and lsb <= len(data),
             "wrongstatus: positions inside the payload")
+    require((sb, msb, lsb) in WS_TRIPLES, "wrongstatus: a (status, msb, lsb) triple covered by the body obligation")
     return F.bit(data, sb) == 0 and F.field(data, msb, lsb) != 0
 
 
